@@ -188,7 +188,7 @@ func (vm *VM) parseRatString(s Value) (RatVal, bool) {
 		if !ok {
 			return RatVal{}, false
 		}
-		return RatVal{smt.Int(r.Num()), smt.Int(r.Denom())}, true
+		return rv(smt.Int(r.Num()), smt.Int(r.Denom())), true
 	}
 	atoms := atomsOf(s)
 	// dec(n) "/" dec(d)
